@@ -883,6 +883,18 @@ func makeIntrinsics() map[string]intrinsic {
 		}
 		return tuple{&bigV{v: quo(st, x, d)}, iface{}}
 	}
+	m[MI+"Int64"] = func(st *State, fr *frame, a []value, cc *ssa.CallCommon) value {
+		v := bi(st, a[0], fr, "Int64")
+		lim := IntConst(new(big.Int).Lsh(big.NewInt(1), 63))
+		st.mayPanic(Or(IntCmp(">=", v, lim), IntCmp("<", v, IntBin("-", zeroI, lim))), "math.Int.Int64() out of bound", fr, cc.Pos())
+		// in range: two's complement of v
+		return mk("int2bv64", BV(64), v)
+	}
+	m[MI+"Uint64"] = func(st *State, fr *frame, a []value, cc *ssa.CallCommon) value {
+		v := bi(st, a[0], fr, "Uint64")
+		st.mayPanic(Or(IntCmp("<", v, zeroI), IntCmp(">=", v, IntConst(new(big.Int).Lsh(big.NewInt(1), 64)))), "math.Int.Uint64() out of bound", fr, cc.Pos())
+		return mk("int2bv64", BV(64), v)
+	}
 	m[MI+"IsInt64"] = func(st *State, fr *frame, a []value, cc *ssa.CallCommon) value {
 		v := bi(st, a[0], fr, "IsInt64")
 		lim := IntConst(new(big.Int).Lsh(big.NewInt(1), 63))
@@ -1296,6 +1308,14 @@ func makeIntrinsics() map[string]intrinsic {
 		}
 		dst := a[1].(iface).v.(*value)
 		*dst = copyVal(*(mb.wrapper.(*value)))
+		// ProtoCodec.UnmarshalJSON then unpacks the interfaces: the message's OWN UnpackInterfaces (orbiter code) runs
+		// against a registry model built from orbiter's own RegisterInterfaces functions
+		if m := st.e.prog.LookupMethod(a[1].(iface).t, nil, "UnpackInterfaces"); m != nil && m.Blocks != nil {
+			r := st.callFunction(fr, m, []value{a[1].(iface).v, iface{t: registryType, v: &opaque{tag: "registry"}}}, nil)
+			if e, ok := r.(iface); ok && e.t != nil {
+				return e
+			}
+		}
 		return iface{}
 	}
 	m["(*github.com/cosmos/cosmos-sdk/codec.ProtoCodec).UnmarshalJSON"] = func(st *State, fr *frame, a []value, cc *ssa.CallCommon) value {
